@@ -1700,4 +1700,845 @@ theorem SynInv_micro (cs cs' : CS) (t : Nat) (h : SynInv cs) (hm : micro cs t = 
     rw [h5] at hs; rw [h2]; exact h u sid hs
 
 
+
+def PC.waitsBuf : PC → Bool | .waitBuf _ => true | _ => false
+def PC.waitsWr : PC → Bool | .waitWr _ _ | .cwait _ => true | _ => false
+
+/-- the lock invariant: holders and queues agree with the states of the tasks -/
+structure LockInv (cs : CS) : Prop where
+  bh : ∀ t, cs.bufHolder = some t ↔ (cs.task t).pc.holdsBuf = true
+  bq : ∀ t, t ∈ cs.bufQ ↔ (cs.task t).pc.waitsBuf = true
+  bn : cs.bufQ.Nodup
+  b0 : cs.bufHolder = none → cs.bufQ = []
+  wh : ∀ t, cs.wrHolder = some t ↔ (cs.task t).pc.holdsWr = true
+  wq : ∀ t, t ∈ cs.wrQ ↔ (cs.task t).pc.waitsWr = true
+  wn : cs.wrQ.Nodup
+  w0 : cs.wrHolder = none → cs.wrQ = []
+
+/-- only the lock-relevant aspects of the states, the holders and the queues matter -/
+theorem LockInv_congr {cs cs' : CS} (h : LockInv cs)
+    (hb : ∀ u, (cs'.task u).pc.holdsBuf = (cs.task u).pc.holdsBuf) (hw : ∀ u, (cs'.task u).pc.holdsWr = (cs.task u).pc.holdsWr)
+    (qb : ∀ u, (cs'.task u).pc.waitsBuf = (cs.task u).pc.waitsBuf) (qw : ∀ u, (cs'.task u).pc.waitsWr = (cs.task u).pc.waitsWr)
+    (e1 : cs'.bufHolder = cs.bufHolder) (e2 : cs'.bufQ = cs.bufQ) (e3 : cs'.wrHolder = cs.wrHolder) (e4 : cs'.wrQ = cs.wrQ) :
+    LockInv cs' where
+  bh := fun t => by rw [e1, hb]; exact h.bh t
+  bq := fun t => by rw [e2, qb]; exact h.bq t
+  bn := by rw [e2]; exact h.bn
+  b0 := by rw [e1, e2]; exact h.b0
+  wh := fun t => by rw [e3, hw]; exact h.wh t
+  wq := fun t => by rw [e4, qw]; exact h.wq t
+  wn := by rw [e4]; exact h.wn
+  w0 := by rw [e3, e4]; exact h.w0
+
+/-- a change of task `t`'s state within its lock class -/
+theorem LockInv_local {cs cs' : CS} (t : Nat) (h : LockInv cs)
+    (hoth : ∀ u, u ≠ t → (cs'.task u).pc = (cs.task u).pc)
+    (hb : (cs'.task t).pc.holdsBuf = (cs.task t).pc.holdsBuf) (hw : (cs'.task t).pc.holdsWr = (cs.task t).pc.holdsWr)
+    (qb : (cs'.task t).pc.waitsBuf = (cs.task t).pc.waitsBuf) (qw : (cs'.task t).pc.waitsWr = (cs.task t).pc.waitsWr)
+    (e1 : cs'.bufHolder = cs.bufHolder) (e2 : cs'.bufQ = cs.bufQ) (e3 : cs'.wrHolder = cs.wrHolder) (e4 : cs'.wrQ = cs.wrQ) :
+    LockInv cs' := by
+  refine LockInv_congr h ?_ ?_ ?_ ?_ e1 e2 e3 e4 <;> intro u <;> by_cases e : u = t
+  all_goals first
+    | (subst e; assumption)
+    | (rw [hoth u e])
+
+/-- `t` takes the free buffer lock -/
+theorem LockInv_acqBuf {cs cs' : CS} (t : Nat) (h : LockInv cs) (hfree : cs.bufHolder = none)
+    (hoth : ∀ u, u ≠ t → (cs'.task u).pc = (cs.task u).pc)
+    (hold : (cs.task t).pc.holdsBuf = false ∧ (cs.task t).pc.waitsBuf = false)
+    (hnew : (cs'.task t).pc.holdsBuf = true ∧ (cs'.task t).pc.waitsBuf = false)
+    (hw : (cs'.task t).pc.holdsWr = (cs.task t).pc.holdsWr) (qw : (cs'.task t).pc.waitsWr = (cs.task t).pc.waitsWr)
+    (e1 : cs'.bufHolder = some t) (e2 : cs'.bufQ = cs.bufQ) (e3 : cs'.wrHolder = cs.wrHolder) (e4 : cs'.wrQ = cs.wrQ) :
+    LockInv cs' where
+  bh := fun u => by
+    rw [e1]
+    by_cases e : u = t
+    · subst e; simp [hnew.1]
+    · rw [hoth u e]
+      constructor
+      · intro hh; cases hh; exact absurd rfl e
+      · intro hh; have := (h.bh u).mpr hh; rw [hfree] at this; cases this
+  bq := fun u => by
+    rw [e2]
+    by_cases e : u = t
+    · subst e; rw [hnew.2, ← hold.2]; exact h.bq u
+    · rw [hoth u e]; exact h.bq u
+  bn := by rw [e2]; exact h.bn
+  b0 := by rw [e1]; intro hh; cases hh
+  wh := fun u => by
+    rw [e3]
+    by_cases e : u = t
+    · subst e; rw [hw]; exact h.wh u
+    · rw [hoth u e]; exact h.wh u
+  wq := fun u => by
+    rw [e4]
+    by_cases e : u = t
+    · subst e; rw [qw]; exact h.wq u
+    · rw [hoth u e]; exact h.wq u
+  wn := by rw [e4]; exact h.wn
+  w0 := by rw [e3, e4]; exact h.w0
+
+/-- `t` queues for the held buffer lock -/
+theorem LockInv_enqBuf {cs cs' : CS} (t : Nat) (h : LockInv cs) (hheld : cs.bufHolder ≠ none)
+    (hoth : ∀ u, u ≠ t → (cs'.task u).pc = (cs.task u).pc)
+    (hold : (cs.task t).pc.holdsBuf = false ∧ (cs.task t).pc.waitsBuf = false)
+    (hnew : (cs'.task t).pc.holdsBuf = false ∧ (cs'.task t).pc.waitsBuf = true)
+    (hw : (cs'.task t).pc.holdsWr = (cs.task t).pc.holdsWr) (qw : (cs'.task t).pc.waitsWr = (cs.task t).pc.waitsWr)
+    (e1 : cs'.bufHolder = cs.bufHolder) (e2 : cs'.bufQ = cs.bufQ ++ [t]) (e3 : cs'.wrHolder = cs.wrHolder) (e4 : cs'.wrQ = cs.wrQ) :
+    LockInv cs' where
+  bh := fun u => by
+    rw [e1]
+    by_cases e : u = t
+    · subst e; rw [hnew.1, ← hold.1]; exact h.bh u
+    · rw [hoth u e]; exact h.bh u
+  bq := fun u => by
+    rw [e2, List.mem_append, List.mem_singleton]
+    by_cases e : u = t
+    · subst e; simp [hnew.2]
+    · rw [hoth u e]; simp [e]; exact h.bq u
+  bn := by
+    rw [e2]
+    apply List.nodup_append.mpr
+    refine ⟨h.bn, by simp, ?_⟩
+    intro a ha b hb
+    rw [List.mem_singleton] at hb
+    intro e; subst e; subst hb
+    have := (h.bq a).mp ha
+    rw [hold.2] at this; cases this
+  b0 := by rw [e1]; intro hh; exact absurd hh hheld
+  wh := fun u => by
+    rw [e3]
+    by_cases e : u = t
+    · subst e; rw [hw]; exact h.wh u
+    · rw [hoth u e]; exact h.wh u
+  wq := fun u => by
+    rw [e4]
+    by_cases e : u = t
+    · subst e; rw [qw]; exact h.wq u
+    · rw [hoth u e]; exact h.wq u
+  wn := by rw [e4]; exact h.wn
+  w0 := by rw [e3, e4]; exact h.w0
+
+
+theorem holdsBuf_not_waitsBuf (pc : PC) (h : pc.holdsBuf = true) : pc.waitsBuf = false := by
+  cases pc <;> first | rfl | (simp [PC.holdsBuf] at h)
+theorem holdsWr_not_waitsWr (pc : PC) (h : pc.holdsWr = true) : pc.waitsWr = false := by
+  cases pc <;> first | rfl | (simp [PC.holdsWr] at h)
+
+theorem releaseBuf_nil (cs : CS) (hq : cs.bufQ = []) : cs.releaseBuf = { cs with bufHolder := none } := by
+  unfold CS.releaseBuf; rw [hq]
+theorem releaseWr_nil (cs : CS) (hq : cs.wrQ = []) : cs.releaseWr = { cs with wrHolder := none } := by
+  unfold CS.releaseWr; rw [hq]
+
+theorem releaseBuf_cons (cs : CS) (w : Nat) (q : List Nat) (hq : cs.bufQ = w :: q) (hw : (cs.task w).pc.waitsBuf = true) :
+    ∃ npc : PC, npc.holdsBuf = true ∧ npc.waitsBuf = false ∧ npc.holdsWr = (cs.task w).pc.holdsWr ∧
+      npc.waitsWr = (cs.task w).pc.waitsWr ∧
+      cs.releaseBuf = ({ cs with bufHolder := some w, bufQ := q } : CS).setPC w npc := by
+  cases hpc : (cs.task w).pc <;> rw [hpc] at hw <;> try (simp [PC.waitsBuf] at hw)
+  rename_i fs
+  refine ⟨.locked fs, rfl, rfl, rfl, rfl, ?_⟩
+  unfold CS.releaseBuf; rw [hq]
+  simp only
+  have : (({ cs with bufHolder := some w, bufQ := q } : CS).task w).pc = .waitBuf fs := hpc
+  rw [this]
+
+theorem releaseWr_cons (cs : CS) (w : Nat) (q : List Nat) (hq : cs.wrQ = w :: q) (hw : (cs.task w).pc.waitsWr = true) :
+    ∃ npc : PC, npc.holdsWr = true ∧ npc.waitsWr = false ∧ npc.holdsBuf = (cs.task w).pc.holdsBuf ∧
+      npc.waitsBuf = (cs.task w).pc.waitsBuf ∧
+      cs.releaseWr = ({ cs with wrHolder := some w, wrQ := q } : CS).setPC w npc := by
+  cases hpc : (cs.task w).pc <;> rw [hpc] at hw <;> try (simp [PC.waitsWr] at hw)
+  · rename_i ps fs
+    refine ⟨.piece ps fs, rfl, rfl, rfl, rfl, ?_⟩
+    unfold CS.releaseWr; rw [hq]
+    simp only
+    have : (({ cs with wrHolder := some w, wrQ := q } : CS).task w).pc = .waitWr ps fs := hpc
+    rw [this]
+  · rename_i k
+    refine ⟨.cshut k, rfl, rfl, by cases k <;> rfl, rfl, ?_⟩
+    unfold CS.releaseWr; rw [hq]
+    simp only
+    have : (({ cs with wrHolder := some w, wrQ := q } : CS).task w).pc = .cwait k := hpc
+    rw [this]
+
+/-- the holder `t` releases the buffer lock and continues in a state that neither holds nor waits for it -/
+theorem LockInv_relBuf {cs c2 : CS} (t : Nat) (h : LockInv cs) (ht : (cs.task t).pc.holdsBuf = true)
+    (hoth : ∀ u, u ≠ t → (c2.task u).pc = (cs.releaseBuf.task u).pc)
+    (hnew : (c2.task t).pc.holdsBuf = false ∧ (c2.task t).pc.waitsBuf = false)
+    (hw : (c2.task t).pc.holdsWr = (cs.task t).pc.holdsWr) (qw : (c2.task t).pc.waitsWr = (cs.task t).pc.waitsWr)
+    (e1 : c2.bufHolder = cs.releaseBuf.bufHolder) (e2 : c2.bufQ = cs.releaseBuf.bufQ)
+    (e3 : c2.wrHolder = cs.wrHolder) (e4 : c2.wrQ = cs.wrQ) : LockInv c2 := by
+  have hholder : cs.bufHolder = some t := (h.bh t).mpr ht
+  have honly : ∀ u, u ≠ t → (cs.task u).pc.holdsBuf = false := by
+    intro u hu
+    cases hb : (cs.task u).pc.holdsBuf with
+    | false => rfl
+    | true => have := (h.bh u).mpr hb; rw [hholder] at this; cases this; exact absurd rfl hu
+  have htq : t ∉ cs.bufQ := fun hm => by
+    have := (h.bq t).mp hm; rw [holdsBuf_not_waitsBuf _ ht] at this; cases this
+  cases hq : cs.bufQ with
+  | nil =>
+    have r1 : cs.releaseBuf.bufHolder = none := by rw [releaseBuf_nil cs hq]
+    have r2 : cs.releaseBuf.bufQ = [] := by rw [releaseBuf_nil cs hq]; exact hq
+    have r3 : ∀ u, (cs.releaseBuf.task u).pc = (cs.task u).pc := by intro u; rw [releaseBuf_nil cs hq]; rfl
+    have key : ∀ u, (c2.task u).pc.holdsWr = (cs.task u).pc.holdsWr ∧ (c2.task u).pc.waitsWr = (cs.task u).pc.waitsWr := by
+      intro u
+      by_cases e : u = t
+      · subst e; exact ⟨hw, qw⟩
+      · rw [hoth u e, r3]; exact ⟨rfl, rfl⟩
+    refine { bh := fun u => ?_, bq := fun u => ?_, bn := (by rw [e2, r2]; exact List.nodup_nil), b0 := (fun _ => by rw [e2, r2]),
+             wh := (fun u => by rw [e3, (key u).1]; exact h.wh u), wq := (fun u => by rw [e4, (key u).2]; exact h.wq u),
+             wn := (by rw [e4]; exact h.wn), w0 := (by rw [e3, e4]; exact h.w0) }
+    · rw [e1, r1]
+      by_cases e : u = t
+      · subst e; simp [hnew.1]
+      · rw [hoth u e, r3, honly u e]; simp
+    · rw [e2, r2]
+      by_cases e : u = t
+      · subst e; simp [hnew.2]
+      · rw [hoth u e, r3]
+        have := h.bq u; rw [hq] at this; exact this
+  | cons w q =>
+    have hwq : w ∈ cs.bufQ := by rw [hq]; exact List.mem_cons_self
+    have hww := (h.bq w).mp hwq
+    obtain ⟨npc, n1, n2, n3, n4, hrel⟩ := releaseBuf_cons cs w q hq hww
+    have hwt : w ≠ t := fun e => htq (e ▸ hwq)
+    have hnd : w ∉ q ∧ q.Nodup := by have := h.bn; rw [hq] at this; exact List.nodup_cons.mp this
+    have r1 : cs.releaseBuf.bufHolder = some w := by rw [hrel]; rfl
+    have r2 : cs.releaseBuf.bufQ = q := by rw [hrel]; rfl
+    have r3 : ∀ u, (cs.releaseBuf.task u).pc = if u = w then npc else (cs.task u).pc := by
+      intro u; rw [hrel, setPC_pc]; rfl
+    have key : ∀ u, (c2.task u).pc.holdsWr = (cs.task u).pc.holdsWr ∧ (c2.task u).pc.waitsWr = (cs.task u).pc.waitsWr := by
+      intro u
+      by_cases e : u = t
+      · subst e; exact ⟨hw, qw⟩
+      · rw [hoth u e, r3]
+        by_cases ew : u = w
+        · subst ew; simp only [if_true]; exact ⟨n3, n4⟩
+        · simp only [ew, if_false]; first | exact ⟨rfl, rfl⟩ | simp
+    refine { bh := fun u => ?_, bq := fun u => ?_, bn := (by rw [e2, r2]; exact hnd.2), b0 := (fun hh => by rw [e1, r1] at hh; cases hh),
+             wh := (fun u => by rw [e3, (key u).1]; exact h.wh u), wq := (fun u => by rw [e4, (key u).2]; exact h.wq u),
+             wn := (by rw [e4]; exact h.wn), w0 := (by rw [e3, e4]; exact h.w0) }
+    · rw [e1, r1]
+      by_cases e : u = t
+      · subst e; rw [hnew.1]; constructor
+        · intro hh; cases hh; exact absurd rfl hwt
+        · intro hh; cases hh
+      · rw [hoth u e, r3]
+        by_cases ew : u = w
+        · subst ew; simp [n1]
+        · simp only [ew, if_false]; rw [honly u e]
+          constructor
+          · intro hh; cases hh; exact absurd rfl ew
+          · intro hh; cases hh
+    · rw [e2, r2]
+      by_cases e : u = t
+      · subst e; rw [hnew.2]
+        constructor
+        · intro hh; exact absurd (by rw [hq]; exact List.mem_cons_of_mem _ hh) htq
+        · intro hh; cases hh
+      · rw [hoth u e, r3]
+        by_cases ew : u = w
+        · subst ew; simp [n2, hnd.1]
+        · simp only [ew, if_false]
+          have := h.bq u; rw [hq, List.mem_cons] at this
+          constructor
+          · intro hh; exact this.mp (Or.inr hh)
+          · intro hh; rcases this.mpr hh with e' | e'
+            · exact absurd e' ew
+            · exact e'
+
+/-- the holder `t` releases the writer lock and continues in a state that neither holds nor waits for it -/
+theorem LockInv_relWr {cs c2 : CS} (t : Nat) (h : LockInv cs) (ht : (cs.task t).pc.holdsWr = true)
+    (hoth : ∀ u, u ≠ t → (c2.task u).pc = (cs.releaseWr.task u).pc)
+    (hnew : (c2.task t).pc.holdsWr = false ∧ (c2.task t).pc.waitsWr = false)
+    (hb : (c2.task t).pc.holdsBuf = (cs.task t).pc.holdsBuf) (qb : (c2.task t).pc.waitsBuf = (cs.task t).pc.waitsBuf)
+    (e3 : c2.wrHolder = cs.releaseWr.wrHolder) (e4 : c2.wrQ = cs.releaseWr.wrQ)
+    (e1 : c2.bufHolder = cs.bufHolder) (e2 : c2.bufQ = cs.bufQ) : LockInv c2 := by
+  have hholder : cs.wrHolder = some t := (h.wh t).mpr ht
+  have honly : ∀ u, u ≠ t → (cs.task u).pc.holdsWr = false := by
+    intro u hu
+    cases hw : (cs.task u).pc.holdsWr with
+    | false => rfl
+    | true => have := (h.wh u).mpr hw; rw [hholder] at this; cases this; exact absurd rfl hu
+  have htq : t ∉ cs.wrQ := fun hm => by
+    have := (h.wq t).mp hm; rw [holdsWr_not_waitsWr _ ht] at this; cases this
+  cases hq : cs.wrQ with
+  | nil =>
+    have r1 : cs.releaseWr.wrHolder = none := by rw [releaseWr_nil cs hq]
+    have r2 : cs.releaseWr.wrQ = [] := by rw [releaseWr_nil cs hq]; exact hq
+    have r3 : ∀ u, (cs.releaseWr.task u).pc = (cs.task u).pc := by intro u; rw [releaseWr_nil cs hq]; rfl
+    have key : ∀ u, (c2.task u).pc.holdsBuf = (cs.task u).pc.holdsBuf ∧ (c2.task u).pc.waitsBuf = (cs.task u).pc.waitsBuf := by
+      intro u
+      by_cases e : u = t
+      · subst e; exact ⟨hb, qb⟩
+      · rw [hoth u e, r3]; exact ⟨rfl, rfl⟩
+    refine { wh := fun u => ?_, wq := fun u => ?_, wn := (by rw [e4, r2]; exact List.nodup_nil), w0 := (fun _ => by rw [e4, r2]),
+             bh := (fun u => by rw [e1, (key u).1]; exact h.bh u), bq := (fun u => by rw [e2, (key u).2]; exact h.bq u),
+             bn := (by rw [e2]; exact h.bn), b0 := (by rw [e1, e2]; exact h.b0) }
+    · rw [e3, r1]
+      by_cases e : u = t
+      · subst e; simp [hnew.1]
+      · rw [hoth u e, r3, honly u e]; simp
+    · rw [e4, r2]
+      by_cases e : u = t
+      · subst e; simp [hnew.2]
+      · rw [hoth u e, r3]
+        have := h.wq u; rw [hq] at this; exact this
+  | cons w q =>
+    have hwq : w ∈ cs.wrQ := by rw [hq]; exact List.mem_cons_self
+    have hww := (h.wq w).mp hwq
+    obtain ⟨npc, n1, n2, n3, n4, hrel⟩ := releaseWr_cons cs w q hq hww
+    have hwt : w ≠ t := fun e => htq (e ▸ hwq)
+    have hnd : w ∉ q ∧ q.Nodup := by have := h.wn; rw [hq] at this; exact List.nodup_cons.mp this
+    have r1 : cs.releaseWr.wrHolder = some w := by rw [hrel]; rfl
+    have r2 : cs.releaseWr.wrQ = q := by rw [hrel]; rfl
+    have r3 : ∀ u, (cs.releaseWr.task u).pc = if u = w then npc else (cs.task u).pc := by
+      intro u; rw [hrel, setPC_pc]; rfl
+    have key : ∀ u, (c2.task u).pc.holdsBuf = (cs.task u).pc.holdsBuf ∧ (c2.task u).pc.waitsBuf = (cs.task u).pc.waitsBuf := by
+      intro u
+      by_cases e : u = t
+      · subst e; exact ⟨hb, qb⟩
+      · rw [hoth u e, r3]
+        by_cases ew : u = w
+        · subst ew; simp only [if_true]; exact ⟨n3, n4⟩
+        · simp only [ew, if_false]; first | exact ⟨rfl, rfl⟩ | simp
+    refine { wh := fun u => ?_, wq := fun u => ?_, wn := (by rw [e4, r2]; exact hnd.2), w0 := (fun hh => by rw [e3, r1] at hh; cases hh),
+             bh := (fun u => by rw [e1, (key u).1]; exact h.bh u), bq := (fun u => by rw [e2, (key u).2]; exact h.bq u),
+             bn := (by rw [e2]; exact h.bn), b0 := (by rw [e1, e2]; exact h.b0) }
+    · rw [e3, r1]
+      by_cases e : u = t
+      · subst e; rw [hnew.1]; constructor
+        · intro hh; cases hh; exact absurd rfl hwt
+        · intro hh; cases hh
+      · rw [hoth u e, r3]
+        by_cases ew : u = w
+        · subst ew; simp [n1]
+        · simp only [ew, if_false]; rw [honly u e]
+          constructor
+          · intro hh; cases hh; exact absurd rfl ew
+          · intro hh; cases hh
+    · rw [e4, r2]
+      by_cases e : u = t
+      · subst e; rw [hnew.2]
+        constructor
+        · intro hh; exact absurd (by rw [hq]; exact List.mem_cons_of_mem _ hh) htq
+        · intro hh; cases hh
+      · rw [hoth u e, r3]
+        by_cases ew : u = w
+        · subst ew; simp [n2, hnd.1]
+        · simp only [ew, if_false]
+          have := h.wq u; rw [hq, List.mem_cons] at this
+          constructor
+          · intro hh; exact this.mp (Or.inr hh)
+          · intro hh; rcases this.mpr hh with e' | e'
+            · exact absurd e' ew
+            · exact e'
+
+/-- `t` takes the free writer lock -/
+theorem LockInv_acqWr {cs cs' : CS} (t : Nat) (h : LockInv cs) (hfree : cs.wrHolder = none)
+    (hoth : ∀ u, u ≠ t → (cs'.task u).pc = (cs.task u).pc)
+    (hold : (cs.task t).pc.holdsWr = false ∧ (cs.task t).pc.waitsWr = false)
+    (hnew : (cs'.task t).pc.holdsWr = true ∧ (cs'.task t).pc.waitsWr = false)
+    (hb : (cs'.task t).pc.holdsBuf = (cs.task t).pc.holdsBuf) (qb : (cs'.task t).pc.waitsBuf = (cs.task t).pc.waitsBuf)
+    (e3 : cs'.wrHolder = some t) (e4 : cs'.wrQ = cs.wrQ) (e1 : cs'.bufHolder = cs.bufHolder) (e2 : cs'.bufQ = cs.bufQ) :
+    LockInv cs' where
+  wh := fun u => by
+    rw [e3]
+    by_cases e : u = t
+    · subst e; simp [hnew.1]
+    · rw [hoth u e]
+      constructor
+      · intro hh; cases hh; exact absurd rfl e
+      · intro hh; have := (h.wh u).mpr hh; rw [hfree] at this; cases this
+  wq := fun u => by
+    rw [e4]
+    by_cases e : u = t
+    · subst e; rw [hnew.2, ← hold.2]; exact h.wq u
+    · rw [hoth u e]; exact h.wq u
+  wn := by rw [e4]; exact h.wn
+  w0 := by rw [e3]; intro hh; cases hh
+  bh := fun u => by
+    rw [e1]
+    by_cases e : u = t
+    · subst e; rw [hb]; exact h.bh u
+    · rw [hoth u e]; exact h.bh u
+  bq := fun u => by
+    rw [e2]
+    by_cases e : u = t
+    · subst e; rw [qb]; exact h.bq u
+    · rw [hoth u e]; exact h.bq u
+  bn := by rw [e2]; exact h.bn
+  b0 := by rw [e1, e2]; exact h.b0
+
+/-- `t` queues for the held writer lock -/
+theorem LockInv_enqWr {cs cs' : CS} (t : Nat) (h : LockInv cs) (hheld : cs.wrHolder ≠ none)
+    (hoth : ∀ u, u ≠ t → (cs'.task u).pc = (cs.task u).pc)
+    (hold : (cs.task t).pc.holdsWr = false ∧ (cs.task t).pc.waitsWr = false)
+    (hnew : (cs'.task t).pc.holdsWr = false ∧ (cs'.task t).pc.waitsWr = true)
+    (hb : (cs'.task t).pc.holdsBuf = (cs.task t).pc.holdsBuf) (qb : (cs'.task t).pc.waitsBuf = (cs.task t).pc.waitsBuf)
+    (e3 : cs'.wrHolder = cs.wrHolder) (e4 : cs'.wrQ = cs.wrQ ++ [t]) (e1 : cs'.bufHolder = cs.bufHolder) (e2 : cs'.bufQ = cs.bufQ) :
+    LockInv cs' where
+  wh := fun u => by
+    rw [e3]
+    by_cases e : u = t
+    · subst e; rw [hnew.1, ← hold.1]; exact h.wh u
+    · rw [hoth u e]; exact h.wh u
+  wq := fun u => by
+    rw [e4, List.mem_append, List.mem_singleton]
+    by_cases e : u = t
+    · subst e; simp [hnew.2]
+    · rw [hoth u e]; simp [e]; exact h.wq u
+  wn := by
+    rw [e4]
+    apply List.nodup_append.mpr
+    refine ⟨h.wn, by simp, ?_⟩
+    intro a ha b hw
+    rw [List.mem_singleton] at hw
+    intro e; subst e; subst hw
+    have := (h.wq a).mp ha
+    rw [hold.2] at this; cases this
+  w0 := by rw [e3]; intro hh; exact absurd hh hheld
+  bh := fun u => by
+    rw [e1]
+    by_cases e : u = t
+    · subst e; rw [hb]; exact h.bh u
+    · rw [hoth u e]; exact h.bh u
+  bq := fun u => by
+    rw [e2]
+    by_cases e : u = t
+    · subst e; rw [qb]; exact h.bq u
+    · rw [hoth u e]; exact h.bq u
+  bn := by rw [e2]; exact h.bn
+  b0 := by rw [e1, e2]; exact h.b0
+
+
+
+/-- a change that does not touch tasks, holders or queues -/
+theorem LockInv_rec {cs : CS} (c1 : CS) (h : LockInv cs) (ht : c1.tasks = cs.tasks) (e1 : c1.bufHolder = cs.bufHolder)
+    (e2 : c1.bufQ = cs.bufQ) (e3 : c1.wrHolder = cs.wrHolder) (e4 : c1.wrQ = cs.wrQ) : LockInv c1 := by
+  have : ∀ u, c1.task u = cs.task u := fun u => by show c1.tasks u = cs.tasks u; rw [ht]
+  exact LockInv_congr h (fun u => by rw [this]) (fun u => by rw [this]) (fun u => by rw [this]) (fun u => by rw [this]) e1 e2 e3 e4
+
+/-- the four lock-relevant aspects of a state -/
+def PC.cls (pc : PC) : Bool × Bool × Bool × Bool := (pc.holdsBuf, pc.holdsWr, pc.waitsBuf, pc.waitsWr)
+
+theorem cls_eq {a b : PC} (h : a.cls = b.cls) :
+    a.holdsBuf = b.holdsBuf ∧ a.holdsWr = b.holdsWr ∧ a.waitsBuf = b.waitsBuf ∧ a.waitsWr = b.waitsWr := by
+  unfold PC.cls at h
+  simp only [Prod.mk.injEq] at h
+  exact h
+
+/-- `t` moves to `pc` within its lock class -/
+theorem LockInv_setPC {cs : CS} (t : Nat) (pc : PC) (h : LockInv cs) (hc : pc.cls = (cs.task t).pc.cls) : LockInv (cs.setPC t pc) := by
+  obtain ⟨a, b, c, d⟩ := cls_eq hc
+  apply LockInv_local t h (fun u e => by rw [setPC_pc]; simp [e]) <;> first | rfl | (rw [setPC_pc, if_pos rfl]; assumption)
+
+theorem LockInv_finishOp {cs : CS} (t : Nat) (r : Res) (h : LockInv cs) (hc : (cs.task t).pc.cls = (false, false, false, false)) :
+    LockInv (cs.finishOp t r) := by
+  have hc' : PC.idle.cls = (cs.task t).pc.cls := by rw [hc]; rfl
+  obtain ⟨a, b, c, d⟩ := cls_eq hc'
+  apply LockInv_local t h (fun u e => by rw [finishOp_pc]; simp [e]) <;> first | rfl | (rw [finishOp_pc, if_pos rfl]; assumption)
+
+theorem LockInv_submit {cs : CS} (t : Nat) (fs : List Bytes) (h : LockInv cs) (hc : (cs.task t).pc.cls = (false, false, false, false)) :
+    LockInv (cs.submit t fs) := by
+  have hc' : (PC.enter fs).cls = (cs.task t).pc.cls := by rw [hc]; rfl
+  obtain ⟨a, b, c, d⟩ := cls_eq hc'
+  apply LockInv_local t h (fun u e => by rw [submit_pc]; simp [e]) <;> first | rfl | (rw [submit_pc, if_pos rfl]; assumption)
+
+theorem LockInv_setTask_keep {cs : CS} (t : Nat) (f : Task → Task) (h : LockInv cs) (hf : ∀ k, (f k).pc = k.pc) : LockInv (cs.setTask t f) := by
+  have : ∀ u, ((cs.setTask t f).task u).pc = (cs.task u).pc := by
+    intro u; rw [setTask_task]; split
+    · rw [hf]
+    · rfl
+  exact LockInv_congr h (fun u => by rw [this]) (fun u => by rw [this]) (fun u => by rw [this]) (fun u => by rw [this]) rfl rfl rfl rfl
+
+theorem LockInv_enterClose {cs : CS} (t : Nat) (k : CloseK) (h : LockInv cs) (hc : (cs.task t).pc.cls = (PC.cflag k).cls) :
+    LockInv (cs.enterClose t k) := by
+  unfold CS.enterClose
+  split
+  · cases k with
+    | op => exact LockInv_finishOp t _ h hc
+    | inWrite fs => exact LockInv_setPC t _ h (by rw [hc]; rfl)
+  · have h1 : LockInv ({ cs with s := { cs.s with closed := true } } : CS) := LockInv_rec _ h rfl rfl rfl rfl rfl
+    exact LockInv_setPC t _ h1 hc.symm
+
+/-- release of the buffer lock by `t`, which continues at `pc` (neither holding nor waiting) -/
+theorem LockInv_relBuf_setPC {cs : CS} (t : Nat) (pc : PC) (h : LockInv cs) (ht : (cs.task t).pc.cls = (true, false, false, false))
+    (hp : pc.cls = (false, false, false, false)) : LockInv (cs.releaseBuf.setPC t pc) := by
+  obtain ⟨a, b, c, d⟩ := cls_eq (show pc.cls = PC.idle.cls from hp)
+  obtain ⟨a', b', c', d'⟩ := cls_eq (show (cs.task t).pc.cls = (PC.locked []).cls from ht)
+  refine LockInv_relBuf t h (by rw [a']; rfl) (fun u e => by rw [setPC_pc]; simp [e]) ?_ ?_ ?_ rfl rfl (by rw [setPC_wrHolder, releaseBuf_wrHolder]) ?_
+  · rw [setPC_pc, if_pos rfl]; exact ⟨a, c⟩
+  · rw [setPC_pc, if_pos rfl, b, b']; rfl
+  · rw [setPC_pc, if_pos rfl, d, d']; rfl
+  · rw [setPC_wrQ]; unfold CS.releaseBuf; split
+    · rfl
+    · simp only; split <;> rfl
+
+theorem LockInv_relBuf_finishOp {cs : CS} (t : Nat) (r : Res) (h : LockInv cs) (ht : (cs.task t).pc.cls = (true, false, false, false)) :
+    LockInv (cs.releaseBuf.finishOp t r) := by
+  have := LockInv_relBuf_setPC t .idle h ht rfl
+  refine LockInv_congr this (fun u => ?_) (fun u => ?_) (fun u => ?_) (fun u => ?_) rfl rfl rfl rfl <;> rw [finishOp_pc, setPC_pc]
+
+
+
+theorem releaseWr_bufQ (cs : CS) : cs.releaseWr.bufQ = cs.bufQ := by
+  unfold CS.releaseWr; split
+  · rfl
+  · simp only; split <;> rfl
+
+/-- release of the writer lock by `t`, which continues at `pc` (same hold on the buffer lock) -/
+theorem LockInv_relWr_setPC {cs : CS} (t : Nat) (pc : PC) (b : Bool) (h : LockInv cs) (ht : (cs.task t).pc.cls = (b, true, false, false))
+    (hp : pc.cls = (b, false, false, false)) : LockInv (cs.releaseWr.setPC t pc) := by
+  have e1 : pc.holdsBuf = b ∧ pc.holdsWr = false ∧ pc.waitsBuf = false ∧ pc.waitsWr = false := by
+    unfold PC.cls at hp; simp only [Prod.mk.injEq] at hp; exact hp
+  have e2 : (cs.task t).pc.holdsBuf = b ∧ (cs.task t).pc.holdsWr = true ∧ (cs.task t).pc.waitsBuf = false ∧ (cs.task t).pc.waitsWr = false := by
+    unfold PC.cls at ht; simp only [Prod.mk.injEq] at ht; exact ht
+  refine LockInv_relWr t h e2.2.1 (fun u e => by rw [setPC_pc]; simp [e]) ?_ ?_ ?_ rfl rfl (by rw [setPC_bufHolder, releaseWr_bufHolder]) ?_
+  · rw [setPC_pc, if_pos rfl]; exact ⟨e1.2.1, e1.2.2.2⟩
+  · rw [setPC_pc, if_pos rfl, e1.1, e2.1]
+  · rw [setPC_pc, if_pos rfl, e1.2.2.1, e2.2.2.1]
+  · rw [setPC_bufQ, releaseWr_bufQ]
+
+theorem LockInv_relWr_finishOp {cs : CS} (t : Nat) (r : Res) (h : LockInv cs) (ht : (cs.task t).pc.cls = (false, true, false, false)) :
+    LockInv (cs.releaseWr.finishOp t r) := by
+  have := LockInv_relWr_setPC t .idle false h ht rfl
+  refine LockInv_congr this (fun u => ?_) (fun u => ?_) (fun u => ?_) (fun u => ?_) rfl rfl rfl rfl <;> rw [finishOp_pc, setPC_pc]
+
+/-- `t` asks for the writer lock: it gets it (state `pcHold`) or queues (state `pcWait`) -/
+theorem LockInv_lockWr {cs : CS} (t : Nat) (pcHold pcWait : PC) (b : Bool) (h : LockInv cs)
+    (ht : (cs.task t).pc.cls = (b, false, false, false))
+    (h1 : pcHold.cls = (b, true, false, false)) (h2 : pcWait.cls = (b, false, false, true)) :
+    LockInv (match cs.wrHolder with
+      | none => ({ cs with wrHolder := some t } : CS).setPC t pcHold
+      | some _ => ({ cs with wrQ := cs.wrQ ++ [t] } : CS).setPC t pcWait) := by
+  have e0 : (cs.task t).pc.holdsBuf = b ∧ (cs.task t).pc.holdsWr = false ∧ (cs.task t).pc.waitsBuf = false ∧ (cs.task t).pc.waitsWr = false := by
+    unfold PC.cls at ht; simp only [Prod.mk.injEq] at ht; exact ht
+  have e1 : pcHold.holdsBuf = b ∧ pcHold.holdsWr = true ∧ pcHold.waitsBuf = false ∧ pcHold.waitsWr = false := by
+    unfold PC.cls at h1; simp only [Prod.mk.injEq] at h1; exact h1
+  have e2 : pcWait.holdsBuf = b ∧ pcWait.holdsWr = false ∧ pcWait.waitsBuf = false ∧ pcWait.waitsWr = true := by
+    unfold PC.cls at h2; simp only [Prod.mk.injEq] at h2; exact h2
+  split
+  · rename_i hnone
+    refine LockInv_acqWr t h hnone (fun u e => by rw [setPC_pc]; simp [e]; rfl) ⟨e0.2.1, e0.2.2.2⟩ ?_ ?_ ?_ rfl rfl rfl rfl
+    · rw [setPC_pc, if_pos rfl]; exact ⟨e1.2.1, e1.2.2.2⟩
+    · rw [setPC_pc, if_pos rfl, e1.1]; exact e0.1.symm
+    · rw [setPC_pc, if_pos rfl, e1.2.2.1]; exact e0.2.2.1.symm
+  · rename_i x hsome
+    refine LockInv_enqWr t h (by rw [hsome]; simp) (fun u e => by rw [setPC_pc]; simp [e]; rfl) ⟨e0.2.1, e0.2.2.2⟩ ?_ ?_ ?_ rfl rfl rfl rfl
+    · rw [setPC_pc, if_pos rfl]; exact ⟨e2.2.1, e2.2.2.2⟩
+    · rw [setPC_pc, if_pos rfl, e2.1]; exact e0.1.symm
+    · rw [setPC_pc, if_pos rfl, e2.2.2.1]; exact e0.2.2.1.symm
+
+theorem LockInv_micro (cs cs' : CS) (t : Nat) (h : LockInv cs) (hm : micro cs t = some cs') : LockInv cs' := by
+  unfold micro at hm
+  simp only at hm
+  split at hm
+  · cases hm
+  · -- idle
+    rename_i hpc
+    have c : (cs.task t).pc.cls = (false, false, false, false) := by rw [hpc]; rfl
+    split at hm
+    · cases hm; exact LockInv_setPC t _ h (by rw [c]; rfl)
+    · cases hm; exact LockInv_finishOp t _ (LockInv_rec _ h rfl rfl rfl rfl rfl) c
+    · split at hm
+      · cases hm; exact LockInv_finishOp t _ h c
+      · cases hm; exact LockInv_submit t _ h c
+    · cases hm; exact LockInv_submit t _ h c
+    · cases hm; exact LockInv_submit t _ h c
+    · split at hm
+      · cases hm
+        refine LockInv_finishOp t _ (LockInv_setTask_keep t _ h (fun _ => rfl)) ?_
+        rw [setTask_task, if_pos rfl]; exact c
+      · cases hm; exact LockInv_setPC t _ h (by rw [c]; rfl)
+    · cases hm; exact LockInv_enterClose t _ h (by rw [c]; rfl)
+  · -- openChecked
+    rename_i hpc
+    cases hm
+    have h0 : LockInv ({ cs with s := (cs.s.register).1 } : CS) := LockInv_rec _ h rfl rfl rfl rfl rfl
+    refine LockInv_submit t _ (LockInv_setTask_keep t _ h0 (fun _ => rfl)) ?_
+    rw [setTask_task, if_pos rfl]
+    show (cs.task t).pc.cls = _
+    rw [hpc]; rfl
+  · -- enter
+    rename_i fs hpc
+    have c : (cs.task t).pc.holdsBuf = false ∧ (cs.task t).pc.holdsWr = false ∧ (cs.task t).pc.waitsBuf = false ∧ (cs.task t).pc.waitsWr = false := by
+      rw [hpc]; exact ⟨rfl, rfl, rfl, rfl⟩
+    split at hm
+    · rename_i hnone
+      cases hm
+      refine LockInv_acqBuf t h hnone (fun u e => by rw [setPC_pc]; simp [e]; rfl) ⟨c.1, c.2.2.1⟩ ?_ ?_ ?_ rfl rfl rfl rfl
+      · rw [setPC_pc, if_pos rfl]; exact ⟨rfl, rfl⟩
+      · rw [setPC_pc, if_pos rfl, c.2.1]; rfl
+      · rw [setPC_pc, if_pos rfl, c.2.2.2]; rfl
+    · rename_i x hsome
+      cases hm
+      refine LockInv_enqBuf t h (by rw [hsome]; simp) (fun u e => by rw [setPC_pc]; simp [e]; rfl) ⟨c.1, c.2.2.1⟩ ?_ ?_ ?_ rfl rfl rfl rfl
+      · rw [setPC_pc, if_pos rfl]; exact ⟨rfl, rfl⟩
+      · rw [setPC_pc, if_pos rfl, c.2.1]; rfl
+      · rw [setPC_pc, if_pos rfl, c.2.2.2]; rfl
+  · cases hm
+  · -- locked []
+    rename_i hpc
+    cases hm
+    exact LockInv_relBuf_finishOp t _ h (by rw [hpc]; rfl)
+  · -- locked (b :: fs)
+    rename_i b fs hpc
+    have c : (cs.task t).pc.cls = (true, false, false, false) := by rw [hpc]; rfl
+    split at hm
+    · cases hm; exact LockInv_relBuf_finishOp t _ h c
+    · split at hm
+      · have h1 : LockInv ({ cs with s := { cs.s with buffer := cs.s.buffer ++ b }, log := cs.log ++ [({ owner := some t, bytes := b } : Unit')] } : CS) :=
+          LockInv_rec _ h rfl rfl rfl rfl rfl
+        split at hm
+        · cases hm; exact LockInv_relBuf_finishOp t _ h1 c
+        · cases hm; exact LockInv_relBuf_setPC t _ h1 c rfl
+      · cases hm
+        exact LockInv_setPC t _ (LockInv_rec _ h rfl rfl rfl rfl rfl) (by show _ = (cs.task t).pc.cls; rw [c]; rfl)
+  · -- preWr
+    rename_i ps fs hpc
+    cases hm
+    unfold CS.lockWrWrite
+    exact LockInv_lockWr t _ _ true h (by rw [hpc]; rfl) rfl rfl
+  · cases hm
+  · -- piece []
+    rename_i fs hpc
+    cases hm
+    exact LockInv_relWr_setPC t _ true h (by rw [hpc]; rfl) rfl
+  · -- piece (p :: ps)
+    rename_i p ps fs hpc
+    have c : (cs.task t).pc.cls = (true, true, false, false) := by rw [hpc]; rfl
+    split at hm
+    · rename_i s' _
+      have h1 : LockInv ({ cs with s := s' } : CS) := LockInv_rec _ h rfl rfl rfl rfl rfl
+      split at hm
+      · cases hm; exact LockInv_relWr_setPC t _ true h1 c rfl
+      · cases hm; exact LockInv_setPC t _ h1 (by show _ = (cs.task t).pc.cls; rw [c]; rfl)
+    · cases hm
+      have h1 : LockInv ({ cs with failed := true } : CS) := LockInv_rec _ h rfl rfl rfl rfl rfl
+      unfold CS.enterClose
+      split
+      · exact LockInv_relWr_setPC t _ true h1 c rfl
+      · have h2 := LockInv_relWr_setPC t (.cflag (.inWrite fs)) true h1 c rfl
+        exact LockInv_congr h2 (fun u => rfl) (fun u => rfl) (fun u => rfl) (fun u => rfl) rfl rfl rfl rfl
+  · -- wdone
+    rename_i r fs hpc
+    have c : (cs.task t).pc.cls = (true, false, false, false) := by rw [hpc]; rfl
+    try simp only at hm
+    split at hm
+    · cases hm; exact LockInv_relBuf_setPC t _ h c rfl
+    · cases hm; exact LockInv_relBuf_finishOp t _ h c
+  · -- cflag
+    rename_i k hpc
+    cases hm
+    exact LockInv_setPC t _ (LockInv_rec _ h rfl rfl rfl rfl rfl) (by show _ = (cs.task t).pc.cls; rw [hpc]; cases k <;> rfl)
+  · -- cdrained
+    rename_i k hpc
+    have := LockInv_lockWr t (.cshut k) (.cwait k) (PC.cflag k).holdsBuf h (by rw [hpc]; cases k <;> rfl) (by cases k <;> rfl) (by cases k <;> rfl)
+    split at hm
+    · rename_i hn; cases hm; rw [hn] at this; exact this
+    · rename_i x hs; cases hm; rw [hs] at this
+      exact LockInv_congr this (fun _ => rfl) (fun _ => rfl) (fun _ => rfl) (fun _ => rfl) rfl rfl hs rfl
+  · cases hm
+  · -- cshut
+    rename_i k hpc
+    have h1 : LockInv ({ cs with s := { cs.s with shut := true } } : CS) := LockInv_rec _ h rfl rfl rfl rfl rfl
+    cases k with
+    | op => cases hm; exact LockInv_relWr_finishOp t _ h1 (by show (cs.task t).pc.cls = _; rw [hpc]; rfl)
+    | inWrite fs => cases hm; exact LockInv_relWr_setPC t _ true h1 (by show (cs.task t).pc.cls = _; rw [hpc]; rfl) rfl
+
+
+
+/-- a task that cannot act is finished or waits for a lock -/
+theorem micro_none (cs : CS) (t : Nat) (h : micro cs t = none) : (cs.task t).pc = .fin ∨ (cs.task t).pc.blocked = true := by
+  unfold micro at h
+  simp only at h
+  split at h
+  · rename_i e; exact Or.inl e
+  all_goals first
+    | (rename_i e; right; rw [e]; rfl)
+    | (repeat' split at h) <;> cases h
+
+theorem micro_enabled (cs : CS) (t : Nat) (hf : (cs.task t).pc ≠ .fin) (hb : (cs.task t).pc.blocked = false) :
+    ∃ cs', micro cs t = some cs' := by
+  cases hm : micro cs t with
+  | some c => exact ⟨c, rfl⟩
+  | none =>
+    rcases micro_none cs t hm with e | e
+    · exact absurd e hf
+    · rw [hb] at e; cases e
+
+theorem blocked_iff (pc : PC) : pc.blocked = true ↔ (pc.waitsBuf = true ∨ pc.waitsWr = true) := by
+  cases pc <;> simp [PC.blocked, PC.waitsBuf, PC.waitsWr]
+
+theorem holdsWr_enabled (pc : PC) (h : pc.holdsWr = true) : pc ≠ .fin ∧ pc.blocked = false := by
+  cases pc <;> first | (simp [PC.holdsWr] at h; done) | exact ⟨(fun e => by cases e), rfl⟩
+
+/-- T9.2 core: whenever some task is unfinished, some task can take a step -/
+theorem progress (cs : CS) (h : LockInv cs) (t : Nat) (ht : (cs.task t).pc ≠ .fin) : ∃ u cs', micro cs u = some cs' := by
+  -- the holder of the writer lock can always run
+  have wr : ∀ u, (cs.task u).pc.waitsWr = true → ∃ v cs', micro cs v = some cs' := by
+    intro u hu
+    have hq : u ∈ cs.wrQ := (h.wq u).mpr hu
+    cases hh : cs.wrHolder with
+    | none => rw [h.w0 hh] at hq; cases hq
+    | some v =>
+      have hv := (h.wh v).mp hh
+      obtain ⟨h1, h2⟩ := holdsWr_enabled _ hv
+      obtain ⟨c, hc⟩ := micro_enabled cs v h1 h2
+      exact ⟨v, c, hc⟩
+  cases hb : (cs.task t).pc.blocked with
+  | false =>
+    obtain ⟨c, hc⟩ := micro_enabled cs t ht hb
+    exact ⟨t, c, hc⟩
+  | true =>
+    rcases (blocked_iff _).mp hb with hw | hw
+    · -- waits for the buffer lock: its holder runs, or waits for the writer lock, whose holder runs
+      have hq : t ∈ cs.bufQ := (h.bq t).mpr hw
+      cases hh : cs.bufHolder with
+      | none => rw [h.b0 hh] at hq; cases hq
+      | some v =>
+        have hv := (h.bh v).mp hh
+        have hvf : (cs.task v).pc ≠ .fin := by intro e; rw [e] at hv; cases hv
+        cases hvb : (cs.task v).pc.blocked with
+        | false =>
+          obtain ⟨c, hc⟩ := micro_enabled cs v hvf hvb
+          exact ⟨v, c, hc⟩
+        | true =>
+          rcases (blocked_iff _).mp hvb with h1 | h1
+          · rw [holdsBuf_not_waitsBuf _ hv] at h1; cases h1
+          · exact wr v h1
+    · exact wr t hw
+
+
+
+/-- inside `close()` -/
+def PC.closing : PC → Bool
+  | .cflag _ | .cdrained _ | .cwait _ | .cshut _ => true
+  | _ => false
+
+theorem closing_norm (pc : PC) : pc.norm.closing = pc.closing := by cases pc <;> rfl
+
+theorem enterClose_summary (cs : CS) (t : Nat) (k : CloseK) :
+    (cs.enterClose t k).s.closed = true ∧ (cs.enterClose t k).s.shut = cs.s.shut ∧
+    ((cs.enterClose t k).s.closed = cs.s.closed ∨ ((cs.enterClose t k).task t).pc.closing = true) := by
+  unfold CS.enterClose
+  split
+  · rename_i h
+    cases k with
+    | op => exact ⟨h, rfl, Or.inl rfl⟩
+    | inWrite fs => exact ⟨h, rfl, Or.inl rfl⟩
+  · refine ⟨rfl, rfl, Or.inr ?_⟩
+    rw [setPC_pc, if_pos rfl]; rfl
+
+/-- what one action does to the closed flag, the transport and the actor's progress through `close()` -/
+theorem micro_close (cs cs' : CS) (t : Nat) (hm : micro cs t = some cs') :
+    (cs.s.closed = true → cs'.s.closed = true) ∧ (cs.s.shut = true → cs'.s.shut = true) ∧
+    (cs'.s.closed = cs.s.closed ∨ (cs'.task t).pc.closing = true) ∧
+    ((cs.task t).pc.closing = true → (cs'.task t).pc.closing = true ∨ cs'.s.shut = true) := by
+  have prep : ∀ (s : Sess) (p : Bytes), (s.prepare p).1.closed = s.closed ∧ (s.prepare p).1.shut = s.shut := by
+    intro s p
+    unfold Sess.prepare
+    split
+    · exact ⟨rfl, rfl⟩
+    · simp only; split
+      · exact ⟨rfl, rfl⟩
+      · split <;> exact ⟨rfl, rfl⟩
+  have tw : ∀ (s s' : Sess) (p : Bytes), s.transportWrite p = some s' → s'.closed = s.closed ∧ s'.shut = s.shut := by
+    intro s s' p h
+    unfold Sess.transportWrite at h
+    split at h
+    · cases h
+    · split at h
+      · cases h
+      · cases h; exact ⟨rfl, rfl⟩
+      · cases h; exact ⟨rfl, rfl⟩
+  unfold micro at hm
+  simp only at hm
+  split at hm
+  · cases hm
+  · rename_i hpc
+    have nc : (cs.task t).pc.closing = false := by rw [hpc]; rfl
+    split at hm
+    · cases hm; exact ⟨id, id, Or.inl rfl, by rw [nc]; intro h; cases h⟩
+    · cases hm; exact ⟨id, id, Or.inl rfl, by rw [nc]; intro h; cases h⟩
+    · split at hm <;> (cases hm; exact ⟨id, id, Or.inl rfl, by rw [nc]; intro h; cases h⟩)
+    · cases hm; exact ⟨id, id, Or.inl rfl, by rw [nc]; intro h; cases h⟩
+    · cases hm; exact ⟨id, id, Or.inl rfl, by rw [nc]; intro h; cases h⟩
+    · split at hm <;> (cases hm; exact ⟨id, id, Or.inl rfl, by rw [nc]; intro h; cases h⟩)
+    · cases hm
+      obtain ⟨a, b, c⟩ := enterClose_summary cs t .op
+      exact ⟨fun _ => a, fun h => by rw [b]; exact h, c, by rw [nc]; intro h; cases h⟩
+  · rename_i hpc
+    cases hm; exact ⟨id, id, Or.inl rfl, by rw [hpc]; intro h; cases h⟩
+  · rename_i hpc
+    split at hm <;> (cases hm; exact ⟨id, id, Or.inl rfl, by rw [hpc]; intro h; cases h⟩)
+  · cases hm
+  · rename_i hpc
+    cases hm
+    exact ⟨by rw [finishOp_s, releaseBuf_s]; exact id, by rw [finishOp_s, releaseBuf_s]; exact id, Or.inl (by rw [finishOp_s, releaseBuf_s]), by rw [hpc]; intro h; cases h⟩
+  · rename_i b fs hpc
+    have nc : (cs.task t).pc.closing = true → False := by rw [hpc]; intro h; cases h
+    split at hm
+    · cases hm
+      exact ⟨by rw [finishOp_s, releaseBuf_s]; exact id, by rw [finishOp_s, releaseBuf_s]; exact id, Or.inl (by rw [finishOp_s, releaseBuf_s]), fun h => (nc h).elim⟩
+    · split at hm
+      · split at hm
+        · cases hm
+          exact ⟨by rw [finishOp_s, releaseBuf_s]; exact id, by rw [finishOp_s, releaseBuf_s]; exact id, Or.inl (by rw [finishOp_s, releaseBuf_s]), fun h => (nc h).elim⟩
+        · cases hm
+          exact ⟨by rw [setPC_s, releaseBuf_s]; exact id, by rw [setPC_s, releaseBuf_s]; exact id, Or.inl (by rw [setPC_s, releaseBuf_s]), fun h => (nc h).elim⟩
+      · cases hm
+        obtain ⟨p1, p2⟩ := prep { cs.s with buffer := [] } (cs.s.buffer ++ b)
+        refine ⟨?_, ?_, Or.inl ?_, fun h => (nc h).elim⟩
+        · rw [setPC_s]; show cs.s.closed = true → (Sess.prepare _ _).1.closed = true; rw [p1]; exact id
+        · rw [setPC_s]; show cs.s.shut = true → (Sess.prepare _ _).1.shut = true; rw [p2]; exact id
+        · rw [setPC_s]; show (Sess.prepare _ _).1.closed = _; rw [p1]
+  · rename_i ps fs hpc
+    cases hm
+    refine ⟨?_, ?_, Or.inl ?_, by rw [hpc]; intro h; cases h⟩ <;> (unfold CS.lockWrWrite; split <;> first | exact id | rfl)
+  · cases hm
+  · rename_i fs hpc
+    cases hm
+    exact ⟨by rw [setPC_s, releaseWr_s]; exact id, by rw [setPC_s, releaseWr_s]; exact id, Or.inl (by rw [setPC_s, releaseWr_s]), by rw [hpc]; intro h; cases h⟩
+  · rename_i p ps fs hpc
+    have nc : (cs.task t).pc.closing = true → False := by rw [hpc]; intro h; cases h
+    split at hm
+    · rename_i s' hs'
+      obtain ⟨t1, t2⟩ := tw cs.s s' p hs'
+      split at hm
+      · cases hm
+        exact ⟨by rw [setPC_s, releaseWr_s]; show _ → s'.closed = true; rw [t1]; exact id, by rw [setPC_s, releaseWr_s]; show _ → s'.shut = true; rw [t2]; exact id,
+          Or.inl (by rw [setPC_s, releaseWr_s]; exact t1), fun h => (nc h).elim⟩
+      · cases hm
+        exact ⟨by rw [setPC_s]; show _ → s'.closed = true; rw [t1]; exact id, by rw [setPC_s]; show _ → s'.shut = true; rw [t2]; exact id,
+          Or.inl (by rw [setPC_s]; exact t1), fun h => (nc h).elim⟩
+    · cases hm
+      obtain ⟨a, b, c⟩ := enterClose_summary ({ cs with failed := true } : CS).releaseWr t (.inWrite fs)
+      rw [releaseWr_s] at b c
+      exact ⟨fun _ => a, fun h => by rw [b]; exact h, c, fun h => (nc h).elim⟩
+  · rename_i r fs hpc
+    have nc : (cs.task t).pc.closing = true → False := by rw [hpc]; intro h; cases h
+    try simp only at hm
+    split at hm
+    · cases hm
+      exact ⟨by rw [setPC_s, releaseBuf_s]; exact id, by rw [setPC_s, releaseBuf_s]; exact id, Or.inl (by rw [setPC_s, releaseBuf_s]), fun h => (nc h).elim⟩
+    · cases hm
+      exact ⟨by rw [finishOp_s, releaseBuf_s]; exact id, by rw [finishOp_s, releaseBuf_s]; exact id, Or.inl (by rw [finishOp_s, releaseBuf_s]), fun h => (nc h).elim⟩
+  · rename_i k hpc
+    cases hm
+    exact ⟨id, id, Or.inl rfl, fun _ => Or.inl (by rw [setPC_pc, if_pos rfl]; rfl)⟩
+  · rename_i k hpc
+    split at hm <;> (cases hm; exact ⟨id, id, Or.inl rfl, fun _ => Or.inl (by rw [setPC_pc, if_pos rfl]; rfl)⟩)
+  · cases hm
+  · rename_i k hpc
+    cases k with
+    | op =>
+      cases hm
+      exact ⟨by rw [finishOp_s, releaseWr_s]; exact id, fun _ => by rw [finishOp_s, releaseWr_s], Or.inl (by rw [finishOp_s, releaseWr_s]), fun _ => Or.inr (by rw [finishOp_s, releaseWr_s])⟩
+    | inWrite fs =>
+      cases hm
+      exact ⟨by rw [setPC_s, releaseWr_s]; exact id, fun _ => by rw [setPC_s, releaseWr_s], Or.inl (by rw [setPC_s, releaseWr_s]), fun _ => Or.inr (by rw [setPC_s, releaseWr_s])⟩
+
+
 end AnyTLS
